@@ -186,6 +186,28 @@ def gen_budget(rnd, nsources=None, rules='random', views=None, supplemental=None
             if rnd.random() < .6:
                 c.pattern = rnd.choice(WORDS).split(' ')[0]
     b['views'] = (c10.gen_views(rnd) if (views if views is not None else rnd.random() < .5) else None)
+    if b['views'] and rnd.random() < .35:
+        # one merchant paid on 15 and on 29 February of a leap year, and views that tell days and weeks apart
+        import copy as _copy
+        from datetime import datetime as _dt
+        s0 = b['sources'][0]
+        lay = s0['lay']
+        ok = [x for x in s0['rows'] if x['exp'] and x['kind'] == 'ok' and len(x['cells']) == len(lay['roles'])]
+        if ok:
+            jd = lay['roles'].index('date')
+            for d2 in (_dt(2024, 2, 15), _dt(2024, 2, 29)):
+                c = _copy.deepcopy(ok[0])
+                c['cells'][jd] = d2.strftime(lay['dfmt'])
+                c['exp']['date'] = d2
+                s0['rows'].append(c)
+            dl = {None: ',', 'tab': '\t'}.get(s0['settings'].get('delimiter'), s0['settings'].get('delimiter'))
+            s0['text'] = c05.render_csv(s0['rows'], s0['settings'].get('has_header', True), len(lay['roles']), dl, '\n')
+            s0['exp'] = [r['exp'] for r in s0['rows'] if r['exp']]
+            gl, vs = b['views']
+            vs = list(vs) + [{'name': 'LeapSameDay', 'locals': [], 'filter': 'max(count(by("day"))) >= 2'},
+                             {'name': 'LeapWeeks', 'locals': [], 'filter': 'count(by("week")) >= 2'},
+                             {'name': 'LeapDays', 'locals': [], 'filter': 'count(by("day")) >= 2'}]
+            b['views'] = (gl, vs)
     b['currency'] = rnd.choice([None, '${amount}', '{amount} zl', '€{amount}'])
     return b
 
